@@ -208,6 +208,8 @@ func (ex *Exec) ghostSort(name string) string {
 	switch name {
 	case "wrN", "wrClock":
 		return sInt
+	case "ioFail":
+		return sBool
 	}
 	return ""
 }
